@@ -545,11 +545,20 @@ impl WCtx {
                 };
                 let ps = self.props(&t[2..]);
                 let mut inv = false;
-                let ls = ls.with_properties(|| {
-                    inv = true;
-                    self.nested("b1");
-                    ps
-                });
+                // one property: the singular entry point
+                let ls = if ps.len() == 1 {
+                    ls.with_property(|| {
+                        inv = true;
+                        self.nested("b1");
+                        ps[0].clone()
+                    })
+                } else {
+                    ls.with_properties(|| {
+                        inv = true;
+                        self.nested("b1");
+                        ps
+                    })
+                };
                 if let Scoped::Local(_, x) = &mut self.scoped.borrow_mut()[idx] {
                     *x = Some(ls);
                 }
@@ -558,18 +567,34 @@ impl WCtx {
             "laddp" => {
                 let ps = self.props(&t[1..]);
                 let mut inv = false;
-                LocalSpan::add_properties(|| {
-                    inv = true;
-                    self.nested("b1");
-                    ps
-                });
+                if ps.len() == 1 {
+                    LocalSpan::add_property(|| {
+                        inv = true;
+                        self.nested("b1");
+                        ps[0].clone()
+                    });
+                } else {
+                    LocalSpan::add_properties(|| {
+                        inv = true;
+                        self.nested("b1");
+                        ps
+                    });
+                }
                 if inv { u() } else { "b0".to_string() }
             }
             "laddev" => {
-                let mut ev = self.event(pu(&t[1]));
+                let n = pu(&t[1]);
+                if t[2] != "-" && n % 3 == 1 {
+                    // the deprecated shim builds the event itself
+                    let ps = self.props(&t[2..]);
+                    #[allow(deprecated)]
+                    Event::add_to_local_parent(self.tables.interner.s(n), || ps.into_iter().map(|(k, v)| (std::borrow::Cow::from(k), std::borrow::Cow::from(v))).collect::<Vec<_>>());
+                    return u();
+                }
+                let mut ev = self.event(n);
                 if t[2] != "-" {
                     let ps = self.props(&t[2..]);
-                    ev = ev.with_properties(|| ps);
+                    ev = if ps.len() == 1 { ev.with_property(|| ps[0].clone()) } else { ev.with_properties(|| ps) };
                 }
                 LocalSpan::add_event(ev);
                 u()
@@ -619,11 +644,19 @@ impl WCtx {
                 let s = self.take_span(&t[1]);
                 let ps = self.props(&t[2..]);
                 let mut inv = false;
-                let s = s.with_properties(|| {
-                    inv = true;
-                    self.nested("b1");
-                    ps
-                });
+                let s = if ps.len() == 1 {
+                    s.with_property(|| {
+                        inv = true;
+                        self.nested("b1");
+                        ps[0].clone()
+                    })
+                } else {
+                    s.with_properties(|| {
+                        inv = true;
+                        self.nested("b1");
+                        ps
+                    })
+                };
                 self.put_span(&t[1], s);
                 if inv { u() } else { "b0".to_string() }
             }
@@ -631,20 +664,36 @@ impl WCtx {
                 let p = self.span(&t[1]);
                 let ps = self.props(&t[2..]);
                 let mut inv = false;
-                p.add_properties(|| {
-                    inv = true;
-                    self.nested("b1");
-                    ps
-                });
+                if ps.len() == 1 {
+                    p.add_property(|| {
+                        inv = true;
+                        self.nested("b1");
+                        ps[0].clone()
+                    });
+                } else {
+                    p.add_properties(|| {
+                        inv = true;
+                        self.nested("b1");
+                        ps
+                    });
+                }
                 drop(p);
                 if inv { u() } else { "b0".to_string() }
             }
             "saddev" => {
                 let p = self.span(&t[1]);
-                let mut ev = self.event(pu(&t[2]));
+                let n = pu(&t[2]);
+                if t[3] != "-" && n % 3 == 1 {
+                    let ps = self.props(&t[3..]);
+                    #[allow(deprecated)]
+                    Event::add_to_parent(self.tables.interner.s(n), &p, || ps.into_iter().map(|(k, v)| (std::borrow::Cow::from(k), std::borrow::Cow::from(v))).collect::<Vec<_>>());
+                    drop(p);
+                    return u();
+                }
+                let mut ev = self.event(n);
                 if t[3] != "-" {
                     let ps = self.props(&t[3..]);
-                    ev = ev.with_properties(|| ps);
+                    ev = if ps.len() == 1 { ev.with_property(|| ps[0].clone()) } else { ev.with_properties(|| ps) };
                 }
                 p.add_event(ev);
                 drop(p);
